@@ -285,8 +285,15 @@ theorem wf_foldl_expireOne (l : List Entry) {s : St} (h : WF s) : WF (l.foldl ex
   | nil => exact h
   | cons e t ih => exact ih (wf_expireOne h e)
 
+theorem wf_pitExpire {s : St} (h : WF s) : WF (pitExpire s) := by
+  unfold pitExpire
+  dsimp only
+  split
+  · exact wf_foldl_expireOne _ h
+  · exact wf_frame (wf_foldl_expireOne _ h) rfl rfl
+
 theorem wf_pitUpdate {s : St} (h : WF s) : WF (pitUpdate s) :=
-  wf_frame (wf_foldl_expireOne _ h) rfl rfl
+  wf_frame (wf_pitExpire h) rfl rfl
 
 theorem wf_dnlTick {s : St} (h : WF s) : WF (dnlTick s) := wf_frame h rfl rfl
 
